@@ -316,6 +316,13 @@ def run_case(kind, idx, rng, sh):
             if val not in vals:
                 sh.note_violation('C17-table:%s %s=%#x registry=%s' % (
                     tab, n, val, '/'.join(hex(v) for v in vals)))
+            elif tab.endswith('opcode2name') and n.endswith(('_lo_user', '_hi_user')):
+                # a code-to-name table reports a code found in a file: the marker of a vendor range is not the name of an
+                # operation when a registry names one for that code (0xe0: DW_OP_GNU_push_tls_address)
+                real = sorted(k for r in registries() for k, v in r.items()
+                              if v == val and k.startswith('DW_OP_') and not k.endswith(('_lo_user', '_hi_user')))
+                if real:
+                    sh.note_violation('C17-table:%s reports %#x as the range marker %s, registry operation %s' % (tab, val, n, '/'.join(real)))
         sh.held(n=judged)
         sh.count('table_pairs', len(pairs))
         sh.count('table_pairs_judged', judged)
